@@ -1,7 +1,7 @@
 (* C16 - progress relies only on wakeups; spurious polls have no effect.
    Partial: waker registration inside oneshot, mpsc, select! and compiler-generated futures is
    assumed; the theorems cover the library's own poll logic as modelled. *)
-From Poster Require Import Model.Sim Proofs.ClientP Proofs.FramingP Proofs.FramingMainP Proofs.SimInvP Proofs.SettleP.
+From Poster Require Import Model.Sim Proofs.ClientP Proofs.FramingP Proofs.FramingMainP Proofs.SimInvP Proofs.SettleP Proofs.SweepP.
 
 (* polling an operation whose oneshot is still empty changes nothing and reports Pending *)
 Theorem C16_spurious_op : forall (s : sys) (i : N) (o : op),
@@ -104,3 +104,55 @@ Theorem C16_spurious_stream_event : forall (s : sys) (j : N) (st : strm), Stoppe
 Proof. exact spurious_stream_event. Qed.
 Print Assumptions C16_spurious_stream_event.
 Check (eq_refl : begin_ev = fun s => set_tail (set_wire s (wbudget s) []) []).
+
+(* ---- whole runs: the sweeping executor and the wake-only executor (Proofs/SweepP.v) --------------------------------------
+   ev_ok': any event of the case language except the harness's batch event (and CONNECT/AUTH within MQTT's packet size).
+   In EVERY state a script reaches the Context task is at rest: held back by the script, gone, or Stopped - so a poll
+   of it whose waker has not fired does nothing (C16_stopped_fix). *)
+Theorem C16_at_rest_reachable : forall evs : list event, Forall ev_ok' evs ->
+  let s := final_state sys_init evs in FInv s /\ SZs s /\ (hold s = true \/ ctx_alive s = false \/ Stopped s).
+Proof. intros evs H. exact (reachable_at_rest evs H sys_init RI_init). Qed.
+Print Assumptions C16_at_rest_reachable.
+
+(* Sweep s es l: the labelled script l is the script es with extra polls inserted (label true) - anywhere, any number -
+   each one of a task whose waker has not fired in the state it is inserted in (Spur: an operation future waiting on a
+   oneshot nothing was sent to, a stream with nothing buffered and a live sender).
+   From every reachable state, for every script and every such set of insertions:
+   - every inserted poll reports Pending and nothing else (no byte written, nothing completed, nothing lost);
+   - the original events print exactly what they print without the insertions - same bytes, same results, same stream
+     items, same order;
+   - the final states agree (up to the per-event output buffers that the next event clears). *)
+Theorem C16_same_outcomes : forall (pre es : list event) (l : list (bool * event)),
+  Forall ev_ok' pre -> Forall ev_ok' es ->
+  let s := final_state sys_init pre in Sweep s es l ->
+  real_obs (run_lab s l) = run_obs s es /\ Forall extra_pending (run_lab s l) /\
+  begin_ev (final_state s (map snd l)) = begin_ev (final_state s es).
+Proof. exact sweep_same_reachable. Qed.
+Print Assumptions C16_same_outcomes.
+Check (eq_refl : Spur = fun s e =>
+  (exists i o, e = EPoll i /\ alookup i (ops s) = Some o /\
+     ((o_phase o = Wait1 /\ o_ch1 o = CEmpty) \/ (o_phase o = Wait2 /\ o_ch2 o = CEmpty))) \/
+  (exists j st, e = EPollStream j /\ alookup j (streams s) = Some st /\
+     st_taken st = true /\ st_buf st = [] /\ st_sender st = true)).
+Check (eq_refl : real_obs = fun l => map snd (filter (fun x => negb (fst (fst x))) l)).
+Check (eq_refl : extra_pending = fun x => fst (fst x) = true -> snd x = pending_obs (snd (fst x))).
+Check (eq_refl : pending_obs = fun e => match e with EPoll i => [OPend i] | EPollStream j => [ONone j] | _ => [] end).
+Check (Sw_extra : forall s e es l, Spur s e -> Sweep s es l -> Sweep s es ((true, e) :: l)).
+Check (Sw_real : forall s e es l, Sweep (fst (step s e)) es l -> Sweep s (e :: es) ((false, e) :: l)).
+
+(* a QoS 1 publish waiting for its PUBACK and polled twice more, while its oneshot is empty, before the PUBACK arrives *)
+Example C16_same_outcomes_nonvacuous :
+  let pre := [EConnect (Build_connect_opts [99] 0 None None None None None None None None [] 0 false false
+                          None None None None None None [] None None None None);
+              EDeliver [32; 3; 0; 0; 0]; ERun;
+              EStart 0 0 (OPub (Build_publish_opts 1 false (Some [116]) None None None None None None None [])); EPoll 0] in
+  let es := [EDeliver [64; 2; 0; 1]; EPoll 0] in
+  let l := [(true, EPoll 0); (true, EPoll 0); (false, EDeliver [64; 2; 0; 1]); (false, EPoll 0)] in
+  Forall ev_ok' pre /\ Forall ev_ok' es /\ Sweep (final_state sys_init pre) es l /\
+  run_obs (final_state sys_init pre) es = [[]; [ODone 0 ROk]].
+Proof.
+  cbv zeta. split; [repeat constructor; discriminate|]. split; [repeat constructor|]. split; [|vm_compute; reflexivity].
+  apply Sw_extra; [left; eexists _, _; split; [reflexivity|]; split; [vm_compute; reflexivity|left; split; reflexivity]|].
+  apply Sw_extra; [left; eexists _, _; split; [reflexivity|]; split; [vm_compute; reflexivity|left; split; reflexivity]|].
+  apply Sw_real. apply Sw_real. apply Sw_nil.
+Qed.
